@@ -6,6 +6,7 @@ package gen
 import (
 	"math/rand"
 	"strings"
+	"unicode/utf8"
 
 	"github.com/flamego/flamego/verifharness/rmodel"
 )
@@ -21,25 +22,25 @@ type ReSpec struct {
 // quantifier braces, flags, escapes. Every text is inside the regex terminal
 // class of the route grammar.
 var Catalogue = []ReSpec{
-	{`[0-9]+`, []string{"1", "42", "007"}, []string{"a", "", "1a"}},
+	{`[0-9]+`, []string{"1", "42", "007"}, []string{"a", "", "1a", "٣", "4５", "１２"}},
 	{`[a-c]{2,3}`, []string{"ab", "abc", "cc"}, []string{"a", "abcd", "xy"}},
 	{`a|b`, []string{"a", "b"}, []string{"c", "ab", ""}},
 	{`(a|b)+`, []string{"a", "ab", "bab"}, []string{"", "c", "abc"}},
 	{`(\.(patch|diff))?`, []string{"", ".patch", ".diff"}, []string{"patch", ".pat"}},
-	{`\d+`, []string{"5", "123"}, []string{"x", ""}},
-	{`[\w]+`, []string{"a_1", "Z", "ab"}, []string{"-", ""}},
+	{`\d+`, []string{"5", "123"}, []string{"x", "", "٣", "1２", "৭"}},
+	{`[\w]+`, []string{"a_1", "Z", "ab"}, []string{"-", "", "é", "aé", "ａ"}},
 	{`[0-9]*`, []string{"", "12"}, []string{"a"}},
 	{`.*x`, []string{"x", "abx", "%41x"}, []string{"xa", "", "\nx", "a\nx"}},
 	{`(x|y)+`, []string{"xy", "x", "yyx"}, []string{"z", ""}},
-	{`v[0-9]`, []string{"v1", "v9"}, []string{"v", "v12"}},
-	{`[a-z]+`, []string{"abc", "q", "ab"}, []string{"1", "A", ""}},
+	{`v[0-9]`, []string{"v1", "v9"}, []string{"v", "v12", "v１", "v٣"}},
+	{`[a-z]+`, []string{"abc", "q", "ab"}, []string{"1", "A", "", "ａ", "aｂ", "ſ"}},
 	{`(ab)*c`, []string{"c", "abc", "ababc"}, []string{"ab", ""}},
 	{`[A-Z][a-z]*`, []string{"A", "Hello"}, []string{"hello", ""}},
 	{`a.c`, []string{"abc", "a.c", "a%c"}, []string{"ac", "abbc", "a\nc"}},
-	{`\w{2}`, []string{"ab", "a1"}, []string{"a", "abc"}},
+	{`\w{2}`, []string{"ab", "a1"}, []string{"a", "abc", "é", "a１"}},
 	{`(a(b(c)))`, []string{"abc"}, []string{"ab", ""}},
 	{`.+`, []string{"a", "ab", "%41", "a.b", "1"}, []string{"", "\n", "a\nb"}},
-	{`(?i)ab`, []string{"ab", "AB", "Ab"}, []string{"a", "abc"}},
+	{`(?i)ab`, []string{"ab", "AB", "Ab"}, []string{"a", "abc", "ａｂ"}},
 	{`a{2}`, []string{"aa"}, []string{"a", "aaa"}},
 	{`x?`, []string{"", "x"}, []string{"xx", "y"}},
 	{`[0-9]+\.[0-9]+`, []string{"1.5", "10.25"}, []string{"1", "1x5"}},
@@ -59,7 +60,7 @@ var Catalogue = []ReSpec{
 	// the dot does not match a line break, white-space classes do - also inside the user's own groups
 	{`(.+)\.(txt|md)`, []string{"a.txt", "x.y.md"}, []string{"a\nb.txt", "txt", ".md"}},
 	{`v(.)(\.[0-9])?`, []string{"v1", "vx.2"}, []string{"v\n", "v", "v\n.1"}},
-	{`\s*x`, []string{"x", " x", "\nx"}, []string{"y", "x "}},
+	{`\s*x`, []string{"x", " x", "\nx"}, []string{"y", "x ", "\u00a0x", "\u2003x"}},
 	{`\Sx`, []string{"ax", "1x"}, []string{" x", "\nx", "x"}},
 	// parentheses and brackets that are not groups: inside classes, quoted with \Q..\E, a class that starts with ]
 	{`(v|r)[(0-9)]+`, []string{"v1", "r(2)", "v)"}, []string{"v1:2", "v?", "vx", "v"}},
@@ -67,7 +68,7 @@ var Catalogue = []ReSpec{
 	{`\Q[\E(x|y)`, []string{"[x", "[y"}, []string{"x", "[z", "[xy"}},
 	{`(v)[](]+`, []string{"v(", "v]", "v]("}, []string{"v:", "v", "v["}},
 	// inline flags: they govern the expression they are written in, nothing else of the segment
-	{`(?i)[a-z]+`, []string{"abc", "ABC", "aBc"}, []string{"1", ""}},
+	{`(?i)[a-z]+`, []string{"abc", "ABC", "aBc", "\u212a", "\u017f"}, []string{"1", "", "ａ", "é"}},
 	{`(?i)[a-z]{2}`, []string{"de", "DE"}, []string{"d", "d1"}},
 	{`(?s).x`, []string{"ax", "\nx"}, []string{"x", "axx"}},
 	{`(?m)[a-z]+`, []string{"abc"}, []string{"abc\nxyz", "\nabc", ""}},
@@ -361,7 +362,26 @@ func Mutate(r *rand.Rand, segs []string) []string {
 		return []string{""}
 	}
 	i := r.Intn(len(out))
-	switch r.Intn(14) {
+	switch r.Intn(15) {
+	case 14: // one character becomes a look-alike outside ASCII: another script's digit, a full-width letter, a no-break space
+		if rs := []rune(out[i]); len(rs) > 0 && utf8.ValidString(out[i]) {
+			j := r.Intn(len(rs))
+			switch c := rs[j]; {
+			case c >= '0' && c <= '9':
+				rs[j] = []rune{0x660, 0xff10, 0x9e6, 0x1d7ce}[r.Intn(4)] + (c - '0')
+			case c >= 'a' && c <= 'z':
+				rs[j] = 0xff41 + (c - 'a')
+			case c >= 'A' && c <= 'Z':
+				rs[j] = 0xff21 + (c - 'A')
+			case c == ' ':
+				rs[j] = 0xa0
+			case c == '-':
+				rs[j] = 0x2010
+			case c == '.':
+				rs[j] = 0x2024
+			}
+			out[i] = string(rs)
+		}
 	case 11: // upper-case the segment (literals and values are case-sensitive unless an expression says otherwise)
 		out[i] = strings.ToUpper(out[i])
 	case 12: // flip the case of one letter
